@@ -236,7 +236,11 @@ where
         // SAFETY: when we initialized `probability_float`, we checked if `symbol` is out of bounds.
         let left_side = unsafe { pmf.get_unchecked(..symbol) };
         let left_cumulative_float = left_side.iter().copied().sum::<F>();
-        let left_cumulative = (left_cumulative_float * self.scale).as_() + symbol.as_();
+        // Clamp the non-leaky parts to `free_weight`, exactly as in `fast_quantized_cdf`
+        // (rounding errors could otherwise make them slightly exceed `free_weight`).
+        let free_weight = wrapping_pow2::<Probability>(PRECISION).wrapping_sub(&pmf.len().as_());
+        let non_leaky: Probability = (left_cumulative_float * self.scale).as_();
+        let left_cumulative = non_leaky.min(free_weight) + symbol.as_();
 
         // It may seem easier to calculate `probability` directly from `probability_float` but
         // this could pick up different rounding errors, breaking guarantees of `EncoderModel`.
@@ -246,7 +250,8 @@ where
             // lead to an inaccessible last quantile due to rounding errors.
             wrapping_pow2(PRECISION)
         } else {
-            (right_cumulative_float * self.scale).as_() + symbol.as_() + Probability::one()
+            let non_leaky: Probability = (right_cumulative_float * self.scale).as_();
+            non_leaky.min(free_weight) + symbol.as_() + Probability::one()
         };
         let probability = right_cumulative
             .wrapping_sub(&left_cumulative)
@@ -299,11 +304,15 @@ where
 
         // Then search for the correct `symbol` using the same float-to-int conversions as in
         // `EncoderModel::left_cumulative_and_probability`.
-        let mut left_cumulative =
-            (left_cumulative_float * self.scale).as_() + next_symbol.wrapping_sub(1).as_();
+        // We clamp the non-leaky parts to `free_weight`, exactly as in `fast_quantized_cdf`.
+        let free_weight =
+            wrapping_pow2::<Probability>(PRECISION).wrapping_sub(&self.pmf.as_ref().len().as_());
+        let non_leaky: Probability = (left_cumulative_float * self.scale).as_();
+        let mut left_cumulative = non_leaky.min(free_weight) + next_symbol.wrapping_sub(1).as_();
 
         for &next_probability in &mut iter {
-            let right_cumulative = (right_cumulative_float * self.scale).as_() + next_symbol.as_();
+            let non_leaky: Probability = (right_cumulative_float * self.scale).as_();
+            let right_cumulative = non_leaky.min(free_weight) + next_symbol.as_();
             if right_cumulative > quantile {
                 let probability = right_cumulative
                     .wrapping_sub(&left_cumulative)
